@@ -110,3 +110,26 @@ package cedar
 //@   ensures reasons: forall id PolicyID :: hasReason(diag.Reasons, id) == (inPS(PolicyIterator(p), id) && polSat(pol(PolicyIterator(p), id), authEnv(entities, req)) && (anyForbid(PolicyIterator(p), authEnv(entities, req)) ? isForbid(pol(PolicyIterator(p), id)) : !isForbid(pol(PolicyIterator(p), id))))
 //@   ensures errors: forall id PolicyID :: hasError(diag.Errors, id) == (inPS(PolicyIterator(p), id) && polErr(pol(PolicyIterator(p), id), authEnv(entities, req)))
 //@   ensures view: forall id PolicyID :: inPS(PolicyIterator(p), id) == has(p.policies, id) && pol(PolicyIterator(p), id) == p.policies[id]
+
+//@ spec func inIDs(ids []PolicyID, id PolicyID) bool = exists k int :: 0 <= k && k < len(ids) && ids[k] == id
+
+// MarshalCedar emits the policies in the order of a sorted list of exactly the ids of the set.
+//@ func (PolicySet) MarshalCedar
+//@   props C20 C14
+//@   loop 1
+//@     invariant forall id PolicyID :: inIDs(ids, id) == $done[id]
+//@   assert after "slices.Sort(ids)" sorted: forall i int, j int :: (0 <= i && i < j && j < len(ids)) ==> !strLess(ids[j], ids[i])
+//@   assert after "slices.Sort(ids)" complete: forall id PolicyID :: inIDs(ids, id) == has(p.policies, id)
+
+// UnmarshalJSON replaces the contents by the decoded document (nothing of the old contents survives).
+//@ func (PolicySet) UnmarshalJSON
+//@   props C20
+//@   loop 1
+//@     invariant !isnil(p.policies) && forall id PolicyID :: has(p.policies, id) == $done[id]
+//@   assert before "return nil" replaced: forall id PolicyID :: has(p.policies, id) == has(jsonPolicySet.StaticPolicies, id)
+
+// ------------------------------------------------------------------ frames
+// Read-only operations write only memory they allocated themselves (C19).
+//@ frameclean C19 Authorize (PolicySet)IsAuthorized (PolicySet)Get (PolicySet)Map (PolicySet)All (PolicySet)MarshalCedar (PolicySet)MarshalJSON
+//@ frameclean C19 (Policy)MarshalCedar (Policy)MarshalJSON (Policy)Annotations (Policy)Effect (Policy)Position (Policy)AST (PolicyList)MarshalCedar
+//@ noleak C19 (PolicySet)Map (Policy)Annotations
